@@ -19,6 +19,15 @@ Ltac gen_ab_tac :=
   try match goal with s : str |- _ => case_string s end;
   ab_exec; unfold set_len_pre; finish.
 
+(* the facts about AtomicBucket::layout / with_capacity on which GenIRLf.ab_wc_spec (cap <= isize::MAX - 31, else
+   FailedAllocation) rests: three pointer-sized header fields, the CHECKED data layout of exactly `capacity` bytes,
+   every failure mapped to FailedAllocation *)
+Theorem gen_ab_layout_shape :
+  abl_header gen_ab_layout = ["AtomicPtr<Self>"; "usize"; "NonZeroUsize"]%string /\
+  abl_data gen_ab_layout = LayoutChecked FailedAllocation /\ abl_err gen_ab_layout = FailedAllocation /\
+  forall cap, option_map fst (eval (plain_cx [("capacity"%string, cap)]) (abl_size gen_ab_layout)) = Some (1 * cap).
+Proof. repeat autounfold with arenagen. cbn. repeat split. Qed.
+
 Theorem gen_ab_try_inc_length_eq : forall b s n,
   as_try (fst (run_afun gen_ab_try_inc_length b s [n])) = Some (try_inc_spec b n).
 Proof. gen_ab_tac. Qed.
@@ -41,6 +50,7 @@ Theorem gen_ab_push_slice_safe : forall b s, push_pre b s ->
   snd (run_afun gen_ab_push_slice b s []).
 Proof. gen_ab_tac. Qed.
 
+Print Assumptions gen_ab_layout_shape.
 Print Assumptions gen_ab_try_inc_length_eq.
 Print Assumptions gen_ab_try_inc_length_safe.
 Print Assumptions gen_ab_set_len_eq.
